@@ -141,11 +141,6 @@ class WorkingHours:
 
         weekday = dt.weekday()
 
-        # Check if this day has working hours defined
-        if weekday not in self._hours or not self._hours[weekday]:
-            # No working hours defined for this day = not working
-            return False
-
         slot_minutes = dt.hour * 60 + dt.minute
 
         # Use Cython-optimized version if available
@@ -153,7 +148,7 @@ class WorkingHours:
             return bool(check_working_hours_fast(slot_minutes, weekday, self._hours, True))
 
         # Check if slot falls within any working interval
-        for (start_h, start_m), (end_h, end_m) in self._hours[weekday]:
+        for (start_h, start_m), (end_h, end_m) in self._hours.get(weekday) or []:
             start_minutes = start_h * 60 + start_m
             end_minutes = end_h * 60 + end_m
 
@@ -161,7 +156,7 @@ class WorkingHours:
             if end_minutes <= start_minutes:
                 # This interval crosses midnight
                 # Working time is: start_minutes <= slot < 1440 OR 0 <= slot < end_minutes
-                if slot_minutes >= start_minutes or slot_minutes < end_minutes:
+                if slot_minutes >= start_minutes:
                     return True
             else:
                 # Normal interval within same day
